@@ -78,6 +78,30 @@ theorem on_starts_on_scheduler (cur : Sched) (c j : Nat) (e : Expr) (xs : List X
   intro obs hobs
   exact (key xs (initSt cur (on (.man c) j e)) ⟨.idle, false, _, _, rfl, rfl⟩ hx obs hobs).1
 
+/-- one-step form, from ANY state in which `on`'s schedule operation has not completed (whatever
+    happened before, including context c running OTHER items): an event that is not `run c` leaves it
+    waiting, shows nothing of the child, signals nothing.  Contrapositive: the transition that
+    starts the child happens inside a `run c` event. -/
+theorem on_child_started_only_by_run (c j : Nat) (st : St) (x : XEv)
+    (hw : OnWaiting c j st.op) (hx : ∀ l, x ≠ .run c l) :
+    OnWaiting c j (step specs st x).1.op ∧
+    (∀ o ∈ (step specs st x).2.outs, o = .enq c j) ∧ (step specs st x).2.sig = none := by
+  obtain ⟨_, _, hsp⟩ := step_spec specs st x
+  rcases hsp with ⟨hop, houts, hsig⟩ | ⟨ev, hm, hop, houts, hsig⟩
+  · rw [hop, houts, hsig]; exact ⟨hw, by simp, rfl⟩
+  · have hev : ev ≠ .fire c j := by
+      intro h; subst h
+      cases x with
+      | run k l =>
+        simp [XEv.Matches] at hm
+        exact hx l (by rw [hm])
+      | _ => simp [XEv.Matches] at hm
+    obtain ⟨ph, ss, b, st', hshape, hsec⟩ := hw
+    have := on_waiting_step specs c j (max (Op.sched (.man c) j ph ss).height b.height) ev _
+      ⟨ph, ss, b, st', rfl, hsec⟩ hev
+    rw [hop, houts, hsig, hshape]
+    simpa [Op.height] using this
+
 /-- inside `on(s, e)` the child's receiver answers get_scheduler with `s`: a `schedule()` in `e`
     enqueues on s's context -/
 theorem on_child_sees_scheduler (cur s : Sched) (j j' : Nat) :
